@@ -19,6 +19,8 @@ func main() {
 		err = cmdQueue(os.Args[2:])
 	case "dispatch":
 		err = cmdDispatch(os.Args[2:])
+	case "egress":
+		err = cmdEgress(os.Args[2:])
 	default:
 		err = fmt.Errorf("unknown subcommand %q", os.Args[1])
 	}
